@@ -100,6 +100,37 @@ def _retry_mc_cfg(timeout, mx, init2, liveness):
             "CONSTRAINT Bounded\n%sCHECK_DEADLOCK FALSE\n" % (timeout, mx, init2, "PROPERTY Terminates\n" if liveness else ""))
 
 
+def _https_note(prop, wd, binary, tier):
+    """spec/HttpsGet.tla: the transport under every download (trust.SimpleHTTPSGetter) and the shape of DefaultHTTPSGetter. Not one of the
+    listed properties: a divergence is reported as a NOTE and recorded in the evidence, never as a violation of C20."""
+    cfg = "SPECIFICATION Spec\nINVARIANTS TypeOK DataExactlyOnSuccess BoundedRedirects ExportCase\nCHECK_DEADLOCK FALSE\n"
+    r = C.run_tlc("HttpsGet_MC", cfg, workers=1, timeout=600, want_cases=True, heap="2g")
+    C.tlc_must_pass(r, "HttpsGet model check")
+    cases = r.cases
+    for i, c in enumerate(cases):
+        c["id"] = i + 1
+    sub = _os.path.join(wd, "https")
+    _os.makedirs(sub, exist_ok=True)
+    cp = _os.path.join(sub, "cases.jsonl")
+    with open(cp, "w") as f:
+        for c in cases:
+            f.write(_json.dumps(c) + "\n")
+    trace = _os.path.join(sub, "trace.ndjson")
+    summ = C.run_harness(binary, "httpsget", cp, trace, _os.path.join(sub, "s.json"), tier)
+    vr = smallfam.validate("HttpsGet_Trace", "TSpec", trace, "", sub)
+    out = dict(states=r.distinct, cases=len(cases), runs=summ["runs"], counts=summ["counts"], conforms=bool(vr.ok))
+    if vr.ok:
+        C.log("[%s] HttpsGet (transport under the retrying getter): %d states, %d cases on the real SimpleHTTPSGetter, all conform; DefaultHTTPSGetter = Retry(2 min, 30 s) over it" % (prop, r.distinct, len(cases)))
+    elif vr.postcondition_false:
+        idx = smallfam.unconsumed_index(vr)
+        evs, j, k = smallfam.call_block(trace, idx)
+        out["first_divergence"] = evs
+        C.log("NOTE [%s] model drift (not a property verdict): HttpsGet diverges from trust.SimpleHTTPSGetter at %s" % (prop, _json.dumps(evs)[:400]))
+    else:
+        raise C.Infra("HttpsGet trace validation failed:\n" + vr.out[-2000:])
+    return out
+
+
 def _c20(prop, tier):
     t0 = _time.time()
     wd = C.scratch("verif-C20-")
@@ -186,7 +217,8 @@ def _c20(prop, tier):
                 f.writelines(rest)
             cur = smallfam.validate("Retry_Trace", "TSpec", cur_p, consts(k), wd)
     code = C.settle(prop, violations)
-    cov = {"states": states, "transitions": gen, "traces_validated_against_impl": summ["runs"], "events_validated": summ["events"],
+    https = _https_note(prop, wd, binary, tier)
+    cov = {"states": states, "transitions": gen, "traces_validated_against_impl": summ["runs"], "events_validated": summ["events"], "transport_specification_HttpsGet": https,
            "model_configurations": ["unit=%sms Timeout=%d Max=%d Init2=%d real=%s" % g for g in grid],
            "slack_ms": RETRY_SLACK_MS, "apalache_inductive_invariant": "RetryInd.IndInv holds initially and is preserved by every step for all parameter values (apalache-mc, lengths 0 and 1)",
            "counts": summ["counts"], "samples": summ["samples"][:4], "exhaustive": True,
